@@ -80,6 +80,7 @@ func vpSameIDSet(a, b []PDU) bool {
 
 func vpNotRejected(string) bool { return false }
 
+// vp:check C10 both configs=version:10|12;shape:topic|ban-vs-name K=24 timeout=1200 maporder=github.com/matrix-org/gomatrixserverlib.ResolveStateConflictsV2New|github.com/matrix-org/gomatrixserverlib.splitConflictedUnconflicted|github.com/matrix-org/gomatrixserverlib.eventMapFromEvents|github.com/matrix-org/gomatrixserverlib.kahnsAlgorithmUsingAuthEvents|github.com/matrix-org/gomatrixserverlib.kahnsAlgorithmUsingPrevEvents
 // vp:check C11 both configs=version:1|10|12;shape:topic|ban-vs-name K=24 timeout=1200 maporder=github.com/matrix-org/gomatrixserverlib.ResolveStateConflictsV2New|github.com/matrix-org/gomatrixserverlib.splitConflictedUnconflicted|github.com/matrix-org/gomatrixserverlib.eventMapFromEvents|github.com/matrix-org/gomatrixserverlib.kahnsAlgorithmUsingAuthEvents|github.com/matrix-org/gomatrixserverlib.kahnsAlgorithmUsingPrevEvents
 // vp_C11_resolve: ResolveConflictsNew on two state sets forked after an agreed base (create, join, power levels):
 // the result set is the same for both orders of the state sets, for permuted events inside the sets, for every map
@@ -157,6 +158,21 @@ func vp_C11_resolve() {
 	vpMapOrderReset()
 	r3, err3 := ResolveConflictsNew(ver, [][]PDU{setA, rev(setA)}, auth, vpUserIDForSender, vpNotRejected)
 	vpAssert("fixed-point", err3 == nil && vpSameIDSet(r3, setA))
+	// the state the v2 / v2.1 algorithm defines for these shapes (C10)
+	n, _ := vpVerNum(ver)
+	if n >= 2 {
+		if vpConfig("shape") == "topic" {
+			// two non-power events on the same mainline position: ordered by (timestamp, ID), the later one is applied last
+			bWins := tsB > tsA || (tsB == tsA && fb.EventID() > fa.EventID())
+			// KF-C10-1: in v2.1 the partial state is empty, the fallback to the event's own auth events adds the event itself
+			// instead of the auth event, the auth check fails for want of a create event and both candidates are dropped
+			vpAssertKF("v2-topic-winner", got[fb.EventID()] == bWins && got[fa.EventID()] == !bWins, "KF-C10-1", vpIsV12(ver))
+		} else {
+			// the ban is a power event and is applied first; Bob's topic then fails the auth check
+			vpAssert("v2-ban-applied", got[fa.EventID()])
+			vpAssert("v2-banned-users-event-dropped", !got[fb.EventID()])
+		}
+	}
 	// which branch wins under v1 depends on SHA-1 values (idealised in the engine), so the witness is the disjunction
 	vpReach("a-fork-event-wins", got[fa.EventID()] || got[fb.EventID()])
 }
